@@ -1,4 +1,5 @@
 import BddProofs.Derived
+import BddProofs.Total3
 import BddProofs.ExprParse
 import BddProofs.Init
 /-! # C03 — connectives, n-ary folds and expression evaluation mean what they say
@@ -55,6 +56,24 @@ theorem C03_operators_meaning {a : Ast} {s : St} {φ : Fn} (hg : Good s) (hl : L
     ∃ v, parseRust a.toks = some v ∧ ∀ fuel s' r, v.eval fuel s = .ok (s', r) → Post s s' r φ :=
   parseRust_eval_spec hg hl hs
 
+/-- it terminates without panicking, storage capacity permitting: with enough fuel it returns or stops
+with "Storage is full"; it never hits an `assert!` and never runs out of fuel -/
+theorem C03_folds_terminate {V fuel : Nat} {s : St} {xs : List Ref} (hg : Good s) (hV : VarsLe s V)
+    (hxs : ∀ x, x ∈ xs → ∃ φ, Valid s.nodes x φ) (hfuel : 3 * (V + 1) * (V + 2) + V < fuel) :
+    (((∃ s' r, andMany fuel s Ref.one xs = .ok (s', r)) ∨ (∃ s', andMany fuel s Ref.one xs = .error (.storageFull, s'))) ∧
+     (∀ e s', andMany fuel s Ref.one xs = .error (e, s') → e = .storageFull)) ∧
+    (((∃ s' r, orMany fuel s Ref.zero xs = .ok (s', r)) ∨ (∃ s', orMany fuel s Ref.zero xs = .error (.storageFull, s'))) ∧
+     (∀ e s', orMany fuel s Ref.zero xs = .error (e, s') → e = .storageFull)) :=
+  let ⟨a, _, c⟩ := andMany_total' hg hV hxs hfuel
+  let ⟨a', _, c'⟩ := orMany_total' hg hV hxs hfuel
+  ⟨⟨a, c⟩, ⟨a', c'⟩⟩
+theorem C03_expr_eval_terminates {V fuel : Nat} {s : St} {x : Expr} {φ : Fn} (hg : Good s) (hV : VarsLe s V)
+    (hs : Expr.Sem s.nodes x φ) (hfuel : 3 * (V + 1) * (V + 2) + V < fuel) :
+    ((∃ s' r, Expr.eval fuel s x = .ok (s', r)) ∨ (∃ s', Expr.eval fuel s x = .error (.storageFull, s'))) ∧
+    (∀ e s', Expr.eval fuel s x = .error (e, s') → e = .storageFull) :=
+  let ⟨a, _, c⟩ := Expr.eval_total' hg hV hs hfuel
+  ⟨a, c⟩
+
 /-- non-vacuity: `a + b * c` parses as `a + (b * c)` -/
 example (a b c : Ref) : parseRust [.h a, .plus, .h b, .star, .h c] =
     some (.expr (.or (.term a) (.and (.term b) (.term c)))) := rfl
@@ -73,3 +92,5 @@ end P
 #print axioms P.C03_operators_precedence
 #print axioms P.C03_operators_meaning
 #print axioms P.C03_not
+#print axioms P.C03_folds_terminate
+#print axioms P.C03_expr_eval_terminates
